@@ -203,6 +203,19 @@ impl SharedBusState {
                 );
                 return reply;
             }
+            // ... also as a whole value: `VirtualSign` is `PartialEq` / `Debug` / `Clone` / `Hash`, so what
+            // a caller can observe includes what those see (buffered bytes, counters)
+            if self.shadows[i].sign(0) != self.bus.sign(i) {
+                self.cx.fail(
+                    "C14/differs-from-solo-sign-as-a-value",
+                    format!(
+                        "after {}: sign {:#06x} on the shared bus no longer equals (==) a twin that saw only the traffic concerning this sign, although state, type and pages agree",
+                        show(m),
+                        self.addrs[i].0
+                    ),
+                );
+                return reply;
+            }
         }
         reply
     }
